@@ -91,6 +91,9 @@ pub fn recv(&mut self, stop_timer: &mut Option<Timer>, env: &mut Env) -> (r: Opt
         senders_ok(old(env).urgent@, old(env).high@) && (*final(stop_timer)) is Some && r is Some ==> urgent_class(r->Some_0.control) || high_class(r->Some_0.control), // OBL:C06+C09.recv.only_urgent_or_high_while_armed
         senders_kept(old(env), final(env)),
         final(env).now@ >= old(env).now@,
+        // ---- nothing pending is abandoned (D18): recv gives up (None) only when no timer is armed and every queue is closed (all Job handles dropped) and drained ----
+        r is None ==> (*old(stop_timer)) is None && final(env).closed@
+            && final(env).urgent@.len() == 0 && final(env).high@.len() == 0 && final(env).normal@.len() == 0, // OBL:C07+C10+C06.recv.gives_up_only_when_no_timer_is_armed_and_every_queue_is_closed_and_drained
         // ---- ordering (C10), over the queue contents at entry ----
         !timer_expired(*old(stop_timer), old(env).now@) && old(env).urgent@.len() > 0 && (*final(stop_timer)) == (*old(stop_timer)) ==>
             r is Some && r->Some_0 == old(env).urgent@[0], // OBL:C10+C09+C07.recv.urgent_first
@@ -205,9 +208,9 @@ broadcast use axiom_terminate_to_nix;
         control is Start ==> c09_start($OV, $FV, $ENVS, command) && r is Normally, // OBL:C09+C18.control.start
         control is Stop ==> c09_stop($OV, $FV, $ENVS) && r is Normally, // OBL:C09.control.stop
         control is TryRestart ==> c09_try_restart($OV, $FV, $ENVS, command) && r is Normally, // OBL:C09+C18.control.try_restart
-        control is ContinueTryGracefulRestart ==> c09_continue($OV, $FV, $ENVS, command) && r is Normally, // OBL:C06+C09.control.continue_try_graceful_restart
+        control is ContinueTryGracefulRestart ==> c09_continue($OV, $FV, $ENVS, command) && r is Normally, // OBL:C06+C09+C07.control.continue_try_graceful_restart
         // restart exactly once: once the replacement has been started for a graceful try-restart, no restart request stays pending
-        control is ContinueTryGracefulRestart ==> $FV.on_end_restart is None, // OBL:C06.control.continue_clears_pending_restart
+        control is ContinueTryGracefulRestart ==> $FV.on_end_restart is None, // OBL:C06+C07.control.continue_clears_pending_restart
         control is GracefulStop ==> c09_graceful($OV, $FV, $ENVS, control->GracefulStop_signal, control->GracefulStop_grace, done.id, false, r is Skip), // OBL:C06+C09.control.graceful_stop
         control is TryGracefulRestart ==> c09_graceful($OV, $FV, $ENVS, control->TryGracefulRestart_signal, control->TryGracefulRestart_grace, done.id, true, r is Skip), // OBL:C06+C09.control.try_graceful_restart
         control is Signal ==> c09_signal($OV, $FV, $ENVS, control->Signal_0) && r is Normally, // OBL:C09.control.signal
